@@ -314,7 +314,7 @@ def atom_text(a, tag, ch, variants=True, standard=False):
     return s + "]"
 
 
-def write(m, ch, ch_atoms=None, variants=True, label_style=None):
+def write(m, ch, ch_atoms=None, variants=True, label_style=None, digit_after_branch=6):
     """one random spelling. ch decides structure (roots, neighbour permutations, ring digit interleaving,
     labels, where bond symbols go); ch_atoms (default ch) decides how atoms are spelled.
     Returns dict(smiles, order, truth)."""
@@ -407,18 +407,22 @@ def write(m, ch, ch_atoms=None, variants=True, label_style=None):
         return lab
 
     ok = [True]
+    nonstandard = [False]
 
-    def emit_atom(x, parent):
+    def emit_atom(x, parent, pre_k=0):
+        """atom text; the ring digits are written by emit_digits - after the first pre_k (parenthesised) branches
+        when pre_k > 0, which most readers (and selfies) accept although OpenSMILES puts ring bonds first"""
         a = m.atoms[x]
         nb = []
         if parent is not None:
             nb.append(parent)
         if a["chiral"] and (a["h"] or 0) >= 1:
             nb.append("H")
+        kids = plans[x]["kids"]
+        nb += kids[:pre_k]
         for key in ring_events[x]:
             nb.append([y for y in key if y != x][0])
-        kids = plans[x]["kids"]
-        nb += kids
+        nb += kids[pre_k:]
         tag = None
         if a["chiral"]:
             widx = [("H" if y == "H" else index_of[y]) for y in nb]
@@ -428,6 +432,9 @@ def write(m, ch, ch_atoms=None, variants=True, label_style=None):
             nbr_written[index_of[x]] = widx
             tags[index_of[x]] = tag
         pieces.append(atom_text(a, tag, ch_atoms, variants))
+        return kids
+
+    def emit_digits(x):
         for key in ring_events[x]:
             other = [y for y in key if y != x][0]
             o = m.order[key]
@@ -479,7 +486,6 @@ def write(m, ch, ch_atoms=None, variants=True, label_style=None):
                     else:
                         free_labels.append(lab)
                         free_labels.sort()
-        return kids
 
     # iterative emission (deep chains must not recurse)
     for k, r in enumerate(roots):
@@ -491,9 +497,19 @@ def write(m, ch, ch_atoms=None, variants=True, label_style=None):
             if item[0] == "text":
                 pieces.append(item[1])
                 continue
+            if item[0] == "digits":
+                emit_digits(item[1])
+                continue
             _, x, parent = item
-            kids = emit_atom(x, parent)
+            nk = len(plans[x]["kids"])
+            pre_k = 0
+            if digit_after_branch and ring_events[x] and nk >= 2 and ch.bool(digit_after_branch):
+                pre_k = ch.int(1, nk - 1)
+                nonstandard[0] = True
+            kids = emit_atom(x, parent, pre_k)
             todo = []
+            if pre_k == 0:
+                todo.append(("digits", x))
             for i, y in enumerate(kids):
                 last = i == len(kids) - 1
                 o = m.order[frozenset((x, y))]
@@ -517,6 +533,8 @@ def write(m, ch, ch_atoms=None, variants=True, label_style=None):
                     todo.append(("text", "(" + bc))
                     todo.append(("atom", y, x))
                     todo.append(("text", ")"))
+                    if pre_k and i == pre_k - 1:
+                        todo.append(("digits", x))
                 else:
                     todo.append(("text", bc))
                     todo.append(("atom", y, x))
@@ -550,7 +568,7 @@ def write(m, ch, ch_atoms=None, variants=True, label_style=None):
     return dict(smiles=smiles, order=all_order,
                 truth=dict(atoms=atoms, bonds=sorted(bonds), marks=sorted(marks), marks_raw=sorted(marks_raw),
                            nbrs={str(i): v for i, v in nbr_written.items()},
-                           ring_closures=len(closing), fragments=len(roots)))
+                           ring_closures=len(closing), fragments=len(roots), digit_after_branch=nonstandard[0]))
 
 
 def usage(truth):
